@@ -49,6 +49,7 @@ CLASSES = ["boundary_hist/restore/copy", "boundary_hist/restore/pickle", "bounda
 BOXES = [1.0, 10.0, 3.7, 12.539722611734991]
 LAYOUTS = [(1, 1, 1), (2, 1, 1), (2, 2, 1), (1, 2, 2), (2, 2, 2), (3, 1, 1), (1, 3, 2), (3, 2, 1)]
 RESTORES = ["copy", "pickle", "file"]
+KEY_ADD_FLAGGED = "add-onto-flagged-particle"   # leaf split with a flagged (y = NaN) resident never terminates
 KEY_RESTORE = "restore-flagged-particle"     # loading a tree simulation that holds a particle flagged for removal
 KEY_BORDER = "tree-border-reinsert"
 KEY_UPPER = "rootbox-upper-face"
@@ -412,7 +413,7 @@ def force_check(sim, cfg, R, ctx):
     X = R.pos(s).astype(LD)
     m = s["m"].astype(LD)
     gcfg = {"boundary": cfg["boundary"], "L": cfg["L"], "nghost": cfg["nghost"], "omega": cfg["omega"]}
-    if R.has_tie(gcfg, sim.t):
+    if R.has_tie(gcfg, sim.t, full=True):   # every ring that gravity sums over, not only the innermost one
         return
     A = np.zeros((n, 3), dtype=LD)
     C = np.zeros((n, 3), dtype=LD)
@@ -649,6 +650,12 @@ def run_history(case, ctx):
                               cfg["L0"], extra=(q["x"], q["y"], q["z"]), period=period):
                 continue
             if border and not all(abs(q[ax]) <= 0.5 * L[k] for k, ax in enumerate("xyz")):
+                continue
+            raw = R.snapshot(sim)
+            fl = [i for i in range(len(raw)) if np.isnan(raw["y"][i])]
+            if tree_cfg and any(abs(raw["x"][i] - q["x"]) < 1e-10 * cfg["L0"] and abs(raw["z"][i] - q["z"]) < 1e-10 * cfg["L0"]
+                                for i in fl) and ctx.finding_open(KEY_ADD_FLAGGED):
+                ctx.excluded(KEY_ADD_FLAGGED)   # replacement placed onto a particle that is only flagged for removal
                 continue
             used_hashes.add(q["hash"])
             try:
